@@ -54,6 +54,9 @@ def build():
   units = [Unit('cache.store[%s]' % k, CU.u_store(k), [CU.CACHE + '.store'],
                 expect_covers=['store/returns'], replay=CU.replay_cache('store'))
            for k in ('none', 'plain')]
+  # the bound under interleavings also needs pop(): it only lowers size, inside its lock region
+  units.append(Unit('cache.pop', CU.u_pop, [CU.CACHE + '.pop', CU.CACHE + '._check_available_space'],
+                    expect_covers=['pop/returns'], replay=CU.replay_cache('pop')))
   return Property(
     'C10', units,
     syntactic=[Syntactic('C10/conf/derived_limits', conf_derivation,
